@@ -387,7 +387,7 @@ def suites_for(pid, rng, tier):
         groups("conc-groups", ("std", "alloc"), FG + SG, ks)
         return "polls", S
     if pid in ("C13", "C14", "C15"):
-        terms = {"C13": ("fe",), "C14": ("tfe", "col"), "C15": ("fe", "tfe", "col")}[pid]
+        terms = {"C13": ("fe",), "C14": ("tfe", "rcol", "rcol"), "C15": ("fe", "tfe", "col", "rcol")}[pid]
         S.append(("costream", "std", "co", gen.gen_co(rng, 2 * k, "k", terms=terms)))
         return "all", S
     raise SystemExit(f"no suite for {pid}")
